@@ -29,8 +29,8 @@ META = dict(
     functions=["NonnegMean.alpha_mart", "betting_mart", "kaplan_kolmogorov", "kaplan_markov", "kaplan_wald", "wald_sprt", "sjm",
                "fixed_alternative_mean", "shrink_trunc", "optimal_comparison", "fixed_bet", "agrapa", "welford_mean_var"],
     explanation=__doc__,
-    bounds={"quick": {"lemma layer": "n <= 3, N in {n, n+3, 50, inf} and symbolic N >= n (n <= 2), ut in plur/super/cmp10", "direct layer": "N = 2 continuous"},
-            "thorough": {"lemma layer": "n <= 4, N grid + symbolic N (n <= 3), all ut", "direct layer": "N = 2 continuous, every ut"}},
+    bounds={"quick": {"lemma layer": "n <= 3, N in {n, n+3, 50, inf} and symbolic N >= n (n <= 2), ut in plur/super/cmp10", "direct layer": "N = 2 continuous; N = 3 lattice populations {0, u/2, u} with u = 1, symbolic parameters and alpha (not kaplan_kolmogorov / optimal_comparison)"},
+            "thorough": {"lemma layer": "n <= 4, N grid + symbolic N (n <= 3), all ut", "direct layer": "N = 2 continuous, every ut; lattice populations N = 3, 4 with u in {1, 3/4}"}},
     outside=["histories longer than n", "floating-point rounding", "Ville's inequality and 'affine => E f(X) = f(E X)' (not mechanised)",
              "direct layer beyond N = 2 (continuous N = 3 was probed: most queries unknown)"],
     assumptions=["parameter ranges as C11; wald_sprt alternative eta in (t,u)",
@@ -69,6 +69,30 @@ def cells(tier):
                 out.append(dict(kind="direct", method=list(m), n=n, N=2, ut=ut, ro=True, fixed=fixed))
     for fam in ("alpha", "betting", "kk", "km", "kw"):
         out.append(dict(kind="generic", family=fam))
+    # direct layer on lattice populations: every ordering of a concrete null population is executed with the tuning parameters and
+    # alpha symbolic; the exact number of orderings with a p-value <= alpha is compared with alpha * N!
+    # (measured: with u = 1 or 3/4 these queries decide in seconds; with the comparison bounds u = 20/19, ... and for
+    #  kaplan_kolmogorov most stay undecided at 90 s, so those are not part of the claim)
+    for m in nnm.METHODS:
+        if m[0] in ("kaplan_markov", "kaplan_wald", "kaplan_kolmogorov") or m[2] == "optimal_comparison":
+            continue
+        if tier == "quick" and m[2] in ("shrink_trunc", "agrapa"):
+            continue        # 15-35 s per query on an idle machine: thorough tier only
+        for N in ((3,) if tier == "quick" else (3, 4)):
+            for ut in (["plur"] if tier == "quick" else ["plur", "super"]):
+                fixed = {"d": 1, "f": 0} if m[2] == "shrink_trunc" else {}
+                for pop in lattice_pops(N, ut):
+                    out.append(dict(kind="lattice", method=list(m), n=N, N=N, ut=ut, ro=True, fixed=fixed, pop=[str(v) for v in pop]))
+    return out
+
+
+def lattice_pops(N, ut):
+    u, t = nnm.UT[ut]
+    vals = [F(0), u / 2, u] if u <= 1 else [F(0), F(1, 2) * u / (2 - 0) if False else u / 4, u / 2, u]
+    out = []
+    for comb in itertools.combinations_with_replacement(vals, N):
+        if sum(comb) <= N * t and len(set(comb)) > 1:
+            out.append(comb)
     return out
 
 
@@ -280,10 +304,60 @@ def _direct(cell, stats):
     return findings, samples, st
 
 
+def _lattice(cell, stats):
+    ex = core.Explorer(stats=stats)
+    findings, samples = [], []
+    st = {'reach': 0}
+    N = cell["N"]
+    pop = [F(v) for v in cell["pop"]]
+
+    def harness(ex):
+        inst = nnm.build(ex, cell)
+        from collections import Counter
+        seqs = Counter(itertools.permutations(pop))
+        alpha = z3.Real("alpha")
+        ex.assume(z3.And(alpha > 0, alpha < 1))
+        terms = []
+        try:
+            for seq, w in seqs.items():
+                p, hist = merge.merged_call(inst.T.test, npmodel.Arr(list(seq)))
+                pm = EV.of(npmodel.min(npmodel.Arr([EV.of(p)] + [EV.of(h) for h in hist])))
+                terms.append((seq, w, pm))
+        except Exception as e:      # noqa
+            r, m = ex.witness()
+            if r == 'sat':
+                d = nnm.model_inputs(m, inst)
+                d["x"] = list(pop)
+                findings.append(dict(clause="exception", cell=cell, inputs=d, observed=repr(e)))
+            elif r != 'unsat':
+                ex.stats.inconclusive += 1
+            return
+        st['reach'] += 1
+        total = math.factorial(N)
+        count = z3.Sum([z3.If(_b(Or(pm.nan, (pm <= EV(alpha)).e)), w, 0) for seq, w, pm in terms])
+        r, mdl = ex.prove(z3.ToReal(count) <= alpha * total, timeout_ms=60000)
+        if r == 'sat':
+            d = nnm.model_inputs(mdl, inst)
+            d["x"] = list(pop)
+            d["alpha"] = model_value(mdl, alpha)
+            findings.append(dict(clause="exact probability over all orderings that the p-value is <= alpha exceeds alpha (lattice population)", cell=cell, inputs=d))
+        if not samples:
+            r, mdl = ex.witness(timeout_ms=3000)
+            if r == 'sat':
+                d = nnm.model_inputs(mdl, inst)
+                d["x"] = [str(v) for v in pop]
+                samples.append(dict(cell="lattice " + nnm.method_id(cell["method"]) + f" N={N} {cell['ut']} population {[str(v) for v in pop]}", orderings=len(terms),
+                                    reachable_with={k: v for k, v in d.items() if k != 'x'}))
+    ex.run(harness)
+    return findings, samples, st
+
+
 def run_cell(cell):
     stats = core.Stats()
     notes = []
-    if cell["kind"] == "generic":
+    if cell["kind"] == "lattice":
+        findings, samples, st = _lattice(cell, stats)
+    elif cell["kind"] == "generic":
         findings, samples, st = _generic(cell, stats)
     elif cell["kind"] == "direct":
         findings, samples, st = _direct(cell, stats)
@@ -378,6 +452,11 @@ def replay(f):
     u, t = (F(v) for v in nnm.UT[cell["ut"]])
     xs = [F(str(v)) if not isinstance(v, F) else v for v in inp["x"]]
     xs = [F(float(v)) for v in xs]         # the values the real code will see
+    if cell["kind"] == "lattice":
+        w = excess_finite(cell, inp, [float(v) for v in xs], cell["N"])
+        if w:
+            return dict(reproduced=True, detail=f"population {[float(v) for v in xs]}: P(p <= {w[0]!r}) = {float(w[1])} over all orderings")
+        return dict(reproduced=False, detail="no probability excess over the orderings of the lattice population")
     if cell["kind"] == "direct":
         if sum(xs) > 2 * t:
             return dict(reproduced=False, detail="population mean exceeds t after rounding to floats")
